@@ -363,7 +363,7 @@ fn check_fieldnorm_n(ctx: &mut Ctx, av: &Avail, n: u32) {
     }
 }
 
-fn real_postings_bytes(opt: Opt, docs: &[u32], tfs: &[u32]) -> Vec<u8> {
+pub(crate) fn real_postings_bytes(opt: Opt, docs: &[u32], tfs: &[u32]) -> Vec<u8> {
     let mut ser = PostingsSerializer::new(0.0, opt.real(), None);
     ser.new_term(docs.len() as u32, true);
     for (d, t) in docs.iter().zip(tfs) {
@@ -392,7 +392,7 @@ fn open_real(opt: Opt, requested: Opt, n: u32, bytes: &[u8], positions: Option<V
     c07_segment_postings(b, positions).map_err(|e| e.to_string())
 }
 
-fn gen_posting_list(rng: &mut Rng) -> (Vec<u32>, Vec<u32>, String) {
+pub(crate) fn gen_posting_list(rng: &mut Rng) -> (Vec<u32>, Vec<u32>, String) {
     let n = match rng.below(14) {
         0 => 0usize,
         1 => 1,
